@@ -136,7 +136,7 @@ func init() {
 		func(ctx *Ctx) *HistCfg {
 			return &HistCfg{Prop: "C14", Cases: tierN(ctx, 150, 1500), MinSteps: 15, MaxSteps: 60,
 				W:       weights(Weights{"commit": 25, "log": 14, "add-all": 10, "write": 14, "write-old": 10, "reset": 4, "switch": 3, "switch-c": 3, "restore": 0, "rm": 1, "junk": 0, "update-ref-probe": 2, "revert-add-probe": 1}),
-				Oracles: []HistOracle{orC14}}
+				Oracles: []HistOracle{orC14}, LongChain: true}
 		})
 	checks["C17"] = histCheck("C17", []string{"C17.world_restore_never_writes_meta", "C17.world_reset_never_writes_meta", "C17.world_no_meta", "C17.world_no_meta_partial", "C17.world_add_rm_no_meta", "C17.matches_dir", "C17.matches_ext", "C17.nothing_hidden_without_ignore", "C17.meta_always", "C17.addArgs_no_meta", "C17.ignored_meta", "C17.add_skips_meta_arg", "C17.status_never_lists_ignored", "C13.untracked_iff", "C17.restore_never_writes_meta", "C17.restoreStaged_no_meta"}, histRule,
 		func(ctx *Ctx) *HistCfg {
